@@ -463,15 +463,49 @@ func (c *Ctx) messagePerFrame(rule string) {
 					continue
 				}
 				n++
-				ok, why := c.freshPerEvaluation(call.Call.Args[0], call)
-				if !ok {
+				var decide func(v ssa.Value, use ssa.Instruction, depth int) (bool, string)
+				decide = func(v ssa.Value, use ssa.Instruction, depth int) (bool, string) {
+					ok, why := c.freshPerEvaluation(v, use)
+					if ok {
+						return true, ""
+					}
 					// the JTMessage of a *Message parameter (the message being processed)
-					if root, path := loadPath(call.Call.Args[0]); root != nil && len(path) > 0 && path[len(path)-1] == "JTMessage" {
+					if root, path := loadPath(v); root != nil && len(path) > 0 && path[len(path)-1] == "JTMessage" {
 						if _, isParam := root.(*ssa.Parameter); isParam && len(path) == 1 {
-							ok, why = true, ""
+							return true, ""
 						}
 					}
+					// a constructor helper that receives the JTMessage as a parameter: decided at its call sites
+					if prm, isP := v.(*ssa.Parameter); isP && depth < 2 {
+						f := prm.Parent()
+						idx := -1
+						for i, q := range f.Params {
+							if q == prm {
+								idx = i
+							}
+						}
+						sites := 0
+						for _, g := range c.RepoFuncs("service") {
+							for _, b2 := range g.Blocks {
+								for _, i2 := range b2.Instrs {
+									ci, isCI := i2.(ssa.CallInstruction)
+									if !isCI || ci.Common().StaticCallee() != f || idx >= len(ci.Common().Args) {
+										continue
+									}
+									sites++
+									if ok2, why2 := decide(ci.Common().Args[idx], i2, depth+1); !ok2 {
+										return false, why2
+									}
+								}
+							}
+						}
+						if sites > 0 {
+							return true, ""
+						}
+					}
+					return false, why
 				}
+				ok, why := decide(call.Call.Args[0], call, 0)
 				st := report.Discharged
 				if !ok {
 					st = report.Violated
